@@ -185,6 +185,14 @@ def structures():
     p[0] += 2 * c.cell[0]
     c.set_positions(p)
     out.append(("diamond rattled, unwrapped", c))
+    # rock salt with an ordered patch of substituted atoms: a region with more species lies inside the region of the host crystal
+    nk = bulk("NaCl", "rocksalt", a=5.64, cubic=True) * (4, 3, 3)
+    zs = nk.get_atomic_numbers()
+    for i, (pp, z) in enumerate(zip(nk.get_positions(), zs)):
+        if z == 11 and np.allclose(pp / 5.64, np.round(pp / 5.64)) and pp[0] < 2 * 5.64 - 0.1:
+            zs[i] = 19
+    nk.set_atomic_numbers(zs)
+    out.append(("rock salt with an ordered patch of K on Na sites", nk))
     out.append(("degenerate cell", Atoms("H2O", positions=[[0, 0, 0], [0.9, 0, 0], [0, 0.9, 0]], cell=[0, 0, 0], pbc=False)))
     return out
 
@@ -217,6 +225,14 @@ def end_to_end(which=None, c13=False):
         gv = gr.copy()
         del gv[5]
         fam.insert(1, ("layered: graphene sheets with a vacancy", gv))
+        # multiply twinned particle of a metal whose nearest-neighbour gap (0.58 A for Pb) lies between the merge threshold and the bond
+        # threshold: regions found from different seeds overlap and are merged
+        from ase.cluster import Decahedron
+        from ase import Atoms as _Atoms
+        dp = Decahedron("Pb", 3, 3, 0)
+        pbp = _Atoms(symbols=dp.get_chemical_symbols(), positions=dp.get_positions(), pbc=False)
+        pbp.center(vacuum=6.0)
+        fam.insert(2, ("Pb decahedron (55 atoms)", pbp))
     for name, at in fam:
         for bt in ((0.65, 0.9) if c13 else (0.65,)):
             fails.extend(_e2e_one(name, at, bt, c13))
